@@ -105,7 +105,7 @@ func main() {
 						if id, ok := sel.X.(*ast.Ident); ok {
 							if pn, ok := p.TypesInfo.Uses[id].(*types.PkgName); ok {
 								path := pn.Imported().Path()
-								if path == "time" && (sel.Sel.Name == "Now" || sel.Sel.Name == "Since") {
+								if path == "time" && (sel.Sel.Name == "Now" || sel.Sel.Name == "Since" || sel.Sel.Name == "Until" || sel.Sel.Name == "After" || sel.Sel.Name == "Tick" || sel.Sel.Name == "NewTimer" || sel.Sel.Name == "Sleep") {
 									sites = append(sites, Site{rel, cur(stack), "wallclock", "time." + sel.Sel.Name})
 								}
 								if path == "math/rand" || path == "crypto/rand" || strings.HasSuffix(path, "libs/rand") {
